@@ -31,8 +31,9 @@ RULE = (
     "indexed writes colliding on the same register, values from ints/bools 0/1, non-bits (2, -1, 1.0, ...), "
     "lists and nested lists; shots of one result are variations of a common template so that strict_names / "
     "strict_lengths both accept and reject; every result is observed under all four flag combinations. "
-    "Separate profiles: collation (nested lists) and exotic tags (upper case, trailing newline, non-ASCII; the "
-    "non-ASCII ones are checked by the oracle only, the model answers !unsupported). thorough: every shot of "
+    "Separate profiles: collation (nested lists), exotic tags (upper case, trailing newline, ...), random ASCII "
+    "tags around the pattern boundary, and non-ASCII tags (checked by the oracle only, the model answers "
+    "!unsupported). thorough: every shot of "
     "<= 4 entries over the 32-entry alphabet {a,b} x ({[0],[1],[2]} x {0,1,True,2} + whole x {0,[True,1],[1,0,1],2}) "
     "enumerated completely (packed 6 shots per result) + 100000 random results. Non-trivial = some shot writes "
     "one register at least twice, or the result has >= 2 shots; distinct by full spec."
@@ -524,9 +525,37 @@ def _revalue(rng, e):
     return [tag, val]
 
 
+_FUZZ = "abzAZ_09[]\n -x"
+
+
+def _fuzz_tag(rng):
+    """ASCII tags at and around the pattern boundary (ties `parseTag` to `re` on the real code)."""
+    if rng.random() < 0.5:
+        return "".join(rng.choice(_FUZZ) for _ in range(rng.randint(0, 8)))
+    ok = lambda: rng.random() < 0.8  # noqa: E731  each part well-formed with p=0.8, else a near miss
+    name = rng.choice(["a", "b_", "zZ9", "q_0A"]) if ok() else rng.choice(["A", "_a", "a b", "9", "", "a-"])
+    lb = "[" if ok() else rng.choice(["[[", "", "("])
+    digits = (
+        "".join(rng.choice("0123456789") for _ in range(rng.randint(1, 3)))
+        if ok()
+        else rng.choice(["", "1 ", "-1", "1_0", "0x1", "1]"])
+    )
+    rb = "]" if ok() else rng.choice(["]]", "", ")"])
+    tail = rng.choice(["", "", "", "\n"]) if ok() else rng.choice(["\n\n", "x", " ", "\t", "\n "])
+    return name + lb + digits + rb + tail
+
+
 def _rand_result(rng, profile):
     names = list(NAMES)
     p_bad = 0.025
+    if profile == "tagfuzz":
+        tags = [_fuzz_tag(rng) for _ in range(3)]
+        return {
+            "shots": [
+                [[rng.choice(tags), _bit(rng) if rng.random() < 0.8 else _bits(rng, 2)] for _ in range(rng.randint(1, 4))]
+                for _ in range(rng.randint(1, 2))
+            ]
+        }
     if profile == "exotic":
         names = names + rng.sample(EXOTIC, 4)
     elif profile == "nonascii":
@@ -556,7 +585,9 @@ def _rand_result(rng, profile):
 
 def _profile(rng):
     u = rng.random()
-    return "collate" if u < 0.18 else "exotic" if u < 0.28 else "nonascii" if u < 0.31 else "regs"
+    if u < 0.18:
+        return "collate"
+    return "exotic" if u < 0.26 else "nonascii" if u < 0.29 else "tagfuzz" if u < 0.37 else "regs"
 
 
 def _alphabet():
@@ -617,19 +648,65 @@ def nontrivial(spec, obs):
     return any(len({r for r, _ in tg}) < len(tg) for tg in map(_targets, spec["shots"]))
 
 
+def _top_items(text: str) -> list[str]:
+    """Heads of the space-separated s-expressions in `text`: an atom's text, or "(" + its first atom."""
+    out, i, n = [], 0, len(text)
+    while i < n:
+        if text[i] == " ":
+            i += 1
+            continue
+        if text[i] != "(":
+            j = text.find(" ", i)
+            j = n if j < 0 else j
+            out.append(text[i:j])
+            i = j
+            continue
+        j = i + 1
+        while j < n and text[j] not in " ()":
+            j += 1
+        out.append(text[i:j])
+        depth, k, quoted = 0, i, False
+        while k < n:
+            ch = text[k]
+            if quoted:
+                if ch == "\\":
+                    k += 1
+                elif ch == '"':
+                    quoted = False
+            elif ch == '"':
+                quoted = True
+            elif ch == "(":
+                depth += 1
+            elif ch == ")":
+                depth -= 1
+                if depth == 0:
+                    break
+            k += 1
+        i = k + 1
+    return out
+
+
+def _outcome(head: str) -> str:
+    return "ok" if head.startswith("(") else head
+
+
 def stats(spec, obs, counters):
-    r = _eval(spec)
+    """Input distribution from the spec, outcomes from the observation of the real code."""
     counters["results"] += 1
     counters[f"shots_per_result.{len(spec['shots'])}"] += 1
     if not _ascii(spec):
         counters["results.nonascii_tag(oracle only)"] += 1
-    for sh, b in zip(spec["shots"], r["bits"]):
+    for sh in spec["shots"]:
         counters["shots"] += 1
         counters["entries"] += len(sh)
         tg = _targets(sh)
         kinds: dict = {}
         for reg, k in tg:
             kinds.setdefault(reg, set()).add(k)
+        counters["entries.indexed_tag"] += sum(1 for _, k in tg if k == "idx")
+        counters["entries.indexed_tag_with_final_newline"] += sum(
+            1 for (t, _), (_, k) in zip(sh, tg) if k == "idx" and t.endswith("\n")
+        )
         if len({t for t, _ in sh}) < len(sh):
             counters["shots.repeated_tag"] += 1
         if any(len(k) == 2 for k in kinds.values()):
@@ -638,10 +715,20 @@ def stats(spec, obs, counters):
             counters["shots.with_bool"] += 1
         if any(isinstance(x, list) for _, v in sh if isinstance(v, list) for x in v):
             counters["shots.with_nested_list"] += 1
-        counters["shots.to_register_bits." + ("ok" if b[0] == "ok" else b[1])] += 1
-    for (sn, sl), x in zip(FLAGS, r["bitstrings"]):
-        counters[f"register_bitstrings.names={int(sn)}.lengths={int(sl)}." + ("ok" if x[0] == "ok" else x[1])] += 1
-    counters["collated_counts." + ("ok" if r["collated"][0] == "ok" else r["collated"][1])] += 1
+    try:
+        i = obs.rindex(") (bitstrings ")
+        j = obs.rindex(") (counts ")
+        k = obs.rindex(") (collated ")
+        counters["shots.to_register_bits.ok"] += obs.count("(shot (dict", 0, i)
+        for name in ("ValueError", "Exception", "Unprintable"):
+            c = obs.count(f"(shot {name} ", 0, i)
+            if c:
+                counters[f"shots.to_register_bits.{name}"] += c
+        for (sn, sl), head in zip(FLAGS, _top_items(obs[i + len(") (bitstrings ") : j])):
+            counters[f"register_bitstrings.names={int(sn)}.lengths={int(sl)}.{_outcome(head)}"] += 1
+        counters["collated_counts." + _outcome(_top_items(obs[k + len(") (collated ") : -2])[0])] += 1
+    except (ValueError, IndexError):
+        counters["observation.unparsed"] += 1
 
 
 def shrink(spec, pred):
